@@ -103,7 +103,7 @@ func (s *scriptSrv) serve(w http.ResponseWriter, r *http.Request) {
 
 var scriptMethods = []string{"m/a", "m/b", mProgress, "m/unregistered"}
 
-func genNotifFrame(r *rand.Rand, seq int) any {
+func genNotifFrame(r *rand.Rand, seq int) (frame any, bad bool) {
 	m := map[string]any{"jsonrpc": "2.0", "method": scriptMethods[r.Intn(len(scriptMethods))]}
 	switch k := r.Intn(20); {
 	case k < 11:
@@ -123,10 +123,13 @@ func genNotifFrame(r *rand.Rand, seq int) any {
 		m["params"] = map[string]any{}
 	case k == 14:
 		m["params"] = []any{float64(3), "s", []any{float64(1)}, true}[r.Intn(4)] // not an object: the decoder refuses
+		bad = true
 	case k == 15:
 		m["method"] = []any{float64(5), nil, true}[r.Intn(3)]
+		bad = m["method"] != nil
 	case k == 16:
 		m["jsonrpc"] = float64(2)
+		bad = true
 	case k == 17:
 		delete(m, "jsonrpc")
 		m["params"] = map[string]any{"seq": float64(seq)}
@@ -137,7 +140,7 @@ func genNotifFrame(r *rand.Rand, seq int) any {
 		m["extra-member"] = genValue(r, 1)
 		m["params"] = map[string]any{"seq": float64(seq), "_meta": map[string]any{"t": float64(seq)}}
 	}
-	return m
+	return m, bad
 }
 
 func genAnswerFrame(r *rand.Rand) any {
@@ -160,15 +163,24 @@ func genAnswerFrame(r *rand.Rand) any {
 	return m
 }
 
-func genScript(r *rand.Rand) []any {
-	var fs []any
+// genScript: the frames, and whether every frame is decodable (then the statement says what the handlers must see).
+func genScript(r *rand.Rand) (fs []any, clean bool) {
+	clean = true
 	seq := 0
 	add := func(n int) {
 		for i := 0; i < n; i++ {
 			if r.Intn(40) == 0 {
-				fs = append(fs, []any{nil, []any{float64(1)}, float64(7), "s"}[r.Intn(4)]) // a frame that is no object
+				k := r.Intn(4)
+				fs = append(fs, []any{nil, []any{float64(1)}, float64(7), "s"}[k]) // a frame that is no object
+				if k != 0 {
+					clean = false
+				}
 			} else {
-				fs = append(fs, genNotifFrame(r, seq))
+				f, bad := genNotifFrame(r, seq)
+				fs = append(fs, f)
+				if bad {
+					clean = false
+				}
 			}
 			seq++
 		}
@@ -182,7 +194,13 @@ func genScript(r *rand.Rand) []any {
 		fs = append(fs, genAnswerFrame(r)) // a second answer
 		add(r.Intn(2))
 	}
-	return fs
+	return fs, clean
+}
+
+// handledKey: (method, seq) of a notification view / frame, the identity the oracle compares.
+func handledKey(method any, params any) string {
+	p, _ := params.(map[string]any)
+	return canonS([]any{method, p["seq"]})
 }
 
 func runScripts(c *hk.Ctx, n int) {
@@ -213,7 +231,7 @@ func runScripts(c *hk.Ctx, n int) {
 		cancel()
 		for i := 0; i < n; i++ {
 			key := fmt.Sprintf("p%d-%d", pi, i)
-			frames := genScript(c.Rng)
+			frames, clean := genScript(c.Rng)
 			srv.mu.Lock()
 			srv.scripts[key] = frames
 			srv.mu.Unlock()
@@ -261,6 +279,45 @@ func runScripts(c *hk.Ctx, n int) {
 			}
 			if late {
 				tags = append(tags, "script:frames-after-answer")
+			}
+			// ---- oracle (from the statement, not the model): on a stream of decodable frames, every notification whose
+			// method has a handler is delivered once, in stream order, before the call returns - those after the answer
+			// included; without handlers nothing is delivered.
+			if clean {
+				var want, wantBefore, have []string
+				answered := false
+				for _, fr := range frames {
+					m, ok := fr.(map[string]any)
+					if !ok {
+						continue
+					}
+					if m["id"] == "$ID" || m["id"] == "$IDSTR" {
+						if _, r := m["result"]; r {
+							answered = true
+						} else if _, e := m["error"]; e {
+							answered = true
+						}
+						continue
+					}
+					if meth, ok := m["method"].(string); ok && contains(profile, meth) {
+						want = append(want, handledKey(meth, m["params"]))
+						if !answered {
+							wantBefore = append(wantBefore, handledKey(meth, m["params"]))
+						}
+					}
+				}
+				for _, v := range got {
+					have = append(have, handledKey(v["method"], v["extra"]))
+				}
+				if canonS(have) != canonS(want) {
+					fp := "incall:reader:handled-differs"
+					if canonS(have) == canonS(wantBefore) {
+						fp = "incall:reader:notification-after-answer-not-delivered"
+					}
+					c.Violate(hk.Violation{Fingerprint: fp, What: "the client's POST-SSE reader did not hand every notification of a registered method to its handler (once, in stream order, before returning)",
+						Input: map[string]any{"handlers": profile, "frames": truncAny(filled)}, Observed: have, Expected: want})
+				}
+				tags = append(tags, "script:clean")
 			}
 			c.Emit(map[string]any{"c": "incall.read", "handlers": profile, "reqId": id, "frames": filled},
 				map[string]any{"trace": trace}, len(got) > 0, tags...)
